@@ -664,7 +664,7 @@ func (w *World) Run(steps []Step, from int) (int, error) {
 			w.Logf("app %s -> k=%d", s.Arg, w.K)
 		case "appckpt":
 			var a, b, c int
-			err := w.App.QueryRow(`PRAGMA wal_checkpoint(` + s.Arg + `)`).Scan(&a, &b, &c)
+			err := w.App.QueryRow(`PRAGMA wal_checkpoint(`+s.Arg+`)`).Scan(&a, &b, &c)
 			w.Logf("app wal_checkpoint(%s) busy=%d log=%d ckpt=%d err=%v", s.Arg, a, b, c, err)
 		case "rmmeta":
 			if w.P != nil {
